@@ -266,8 +266,13 @@ pub(crate) fn force_refresh_currency(config: &Currency) -> Result<String> {
     let mut path = dirs::cache_dir().ok_or_else(|| eyre!("Could not find cache directory"))?;
     path.push("rink");
     path.push("currency.json");
-    let file = download_to_file(&path, &config.endpoint, config.timeout)
-        .wrap_err("Fetching currency data failed")?;
+    let file = download_checked(
+        &path,
+        &config.endpoint,
+        config.timeout,
+        check_currency_file,
+    )
+    .wrap_err("Fetching currency data failed")?;
     let delta = std::time::Instant::now() - start;
     let metadata = file
         .metadata()
@@ -285,7 +290,13 @@ fn load_live_currency(config: &Currency) -> Result<String> {
     } else {
         None
     };
-    let file = cached("currency.json", &config.endpoint, duration, config.timeout)?;
+    let file = cached(
+        "currency.json",
+        &config.endpoint,
+        duration,
+        config.timeout,
+        check_currency_file,
+    )?;
     let contents = file_to_string(file)?;
     Ok(contents)
 }
@@ -374,7 +385,29 @@ fn read_if_current(file: File, expiration: Option<Duration>) -> Result<File> {
     Ok(file)
 }
 
+#[cfg(test)]
 fn download_to_file(path: &Path, url: &str, timeout: Duration) -> Result<File> {
+    download_checked(path, url, timeout, |_| Ok(()))
+}
+
+/// The downloaded currency file has to be complete: a server that sends
+/// neither a length nor chunks ends the body by closing the connection,
+/// and nothing else tells a body that was cut short from a whole one.
+fn check_currency_file(file: &mut File) -> Result<()> {
+    let mut contents = String::new();
+    file.read_to_string(&mut contents)?;
+    Context::check_currency(&contents)
+        .map_err(|err| eyre!("Downloaded currency data is incomplete or malformed: {err}"))
+}
+
+/// Downloads `url` to `path`. The file only replaces what is at `path`
+/// once it is complete and `check` has accepted it.
+fn download_checked(
+    path: &Path,
+    url: &str,
+    timeout: Duration,
+    check: impl FnOnce(&mut File) -> Result<()>,
+) -> Result<File> {
     use std::fs::create_dir_all;
 
     create_dir_all(path.parent().unwrap())?;
@@ -431,6 +464,9 @@ fn download_to_file(path: &Path, url: &str, timeout: Duration) -> Result<File> {
         ));
     }
 
+    temp_file.as_file_mut().seek(SeekFrom::Start(0))?;
+    check(temp_file.as_file_mut())?;
+
     temp_file.as_file_mut().sync_all()?;
     temp_file.as_file_mut().seek(SeekFrom::Start(0))?;
 
@@ -444,6 +480,7 @@ fn cached(
     url: &str,
     expiration: Option<Duration>,
     timeout: Duration,
+    check: impl FnOnce(&mut File) -> Result<()>,
 ) -> Result<File> {
     let mut path = dirs::cache_dir().ok_or_else(|| eyre!("Could not find cache directory"))?;
     path.push("rink");
@@ -459,7 +496,7 @@ fn cached(
         }
     }
 
-    let err = match download_to_file(&path, url, timeout) {
+    let err = match download_checked(&path, url, timeout, check) {
         Ok(result) => return Ok(result),
         Err(err) => err,
     };
